@@ -42,7 +42,8 @@ CLAIMED = {
             "calc_holo == sum_xy |scaling*calc_field + (a,b)/|(a,b)||^2, calc_intensity == sum_xy |calc_field|^2, "
             "scaling 0 -> exactly 1, calc_field == stub field * exp(-ikz) (superposed for collections), result "
             "coordinates/metadata and input purity, for ALL field values, polarizations, scalings and depths on "
-            "grids up to 3x4 and point detectors up to 4 points, through the real interface/imageformation code.",
+            "grids up to 3x4 and point detectors up to 4 points, through the real interface/imageformation code; history "
+            "independence of the real MieLens calculator (two lens angles in both orders, fresh module state).",
             '§2 C01', TRUST + "; theory kernel = arbitrary per-point field; finiteness and Fortran COMMON state outside"),
     'C16': ('model_checking',
             "Welford accumulator == batch mean/variance for every push order (n<=6), load_average mean and relative "
@@ -65,7 +66,8 @@ CLAIMED = {
     'C05': ('model_checking',
             "In-plane shift leaves every kernel argument unchanged (spherical and cylindrical kernels); rotation about "
             "the axis turns cylindrical arguments into (rho, phi+psi, z); full rotation covariance, mirror symmetry and "
-            "x/y-polarization symmetry of MieLens.raw_fields for ALL angles, with the lens-pupil integrals uninterpreted.",
+            "x/y-polarization symmetry of MieLens.raw_fields for ALL angles, with the lens-pupil integrals uninterpreted; "
+            "cluster orientation through the library API; Lens.raw_fields covariant under one phi-quadrature step.",
             '§2 C05', TRUST + "; covariance of compiled Mie/Multisphere/T-matrix kernels and of Lens' phi quadrature "
             "outside the claim"),
     'C06': ('model_checking',
